@@ -322,6 +322,7 @@ func (p *Process) Run() {
 			if !ok {
 				tasks = nil
 			} else {
+				vhookTask("proc.accept", t)
 				// Sending FIFOs for the task
 				for oname, oip := range t.OutIPs {
 					if oip.doStream {
@@ -329,19 +330,23 @@ func (p *Process) Run() {
 							p.Failf("Fifo file exists, so exiting (clean up fifo files before restarting the workflow): %s", oip.FifoPath())
 						}
 						oip.CreateFifo()
+						vhook("proc.fifo", p.name, oip.FifoPath())
 						p.Out(oname).Send(oip)
 					}
 				}
 
 				// Execute task in separate go-routine
+				vhookTask("proc.spawn", t)
 				go t.Execute()
 
 				startedTasks = append(startedTasks, t)
 			}
 		case <-startedTasks.NextTaskDone():
 			nextTask, startedTasks = startedTasks[0], startedTasks[1:]
+			vhookTask("proc.headdone", nextTask)
 			for oname, oip := range nextTask.OutIPs {
 				if !oip.doStream { // Streaming (FIFO) outputs have been sent earlier
+					vhook("proc.sent", p.name, oname, oip.Path())
 					p.Out(oname).Send(oip)
 				}
 				// Remove any FIFO file
@@ -395,6 +400,7 @@ func (p *Process) createTasks() (ch chan *Task) {
 			}
 
 			// Create task and send on the channel we are about to return
+			vhook("ct.round", p.name)
 			ch <- NewTask(p.workflow, p, p.Name(), p.CommandPattern, inIPs, p.PathFuncs, p.PortInfo, params, tags, p.Prepend, p.CustomExecute, p.CoresPerTask)
 
 			// If we have no in-ports nor param in-ports, we should break after the first iteration
